@@ -75,6 +75,21 @@ def check_store(ctx, spec, vcfs, work, nparts, ccs, label):
     n = len(spec["records"])
     if icf.num_records != n:
         ctx.violate(f"num_records {icf.num_records} != {n} records in the input ({label})", inp, n, icf.num_records)
+    # the source records, in output order (header contig order, then file order), for the fixed columns
+    src = sorted(spec["records"], key=lambda r: r["contig"])
+    try:
+        got_fixed = {"CHROM": [str(v[0]) for v in icf.fields["CHROM"].values], "POS": [int(v[0]) for v in icf.fields["POS"].values],
+                     "REF": [str(v[0]) for v in icf.fields["REF"].values], "ALT": [[str(x) for x in v] for v in icf.fields["ALT"].values]}
+        want_fixed = {"CHROM": [spec["contigs"][r["contig"]][0] for r in src], "POS": [r["pos"] for r in src],
+                      "REF": [r["ref"] for r in src], "ALT": [list(r.get("alt") or []) for r in src]}
+        for name in want_fixed:
+            if got_fixed[name] != want_fixed[name]:
+                d = next((i for i, (a, b) in enumerate(zip(got_fixed[name], want_fixed[name])) if a != b), min(len(got_fixed[name]), len(want_fixed[name])))
+                ctx.violate(f"{name} column differs from the source records at record {d} ({label}): "
+                            f"{got_fixed[name][d:d+3]} vs {want_fixed[name][d:d+3]}", {**inp, "field": name}, want_fixed[name][d:d + 3], got_fixed[name][d:d + 3])
+                break
+    except Exception as e:  # noqa: BLE001
+        ctx.violate(f"fixed columns unreadable ({label}): {type(e).__name__}: {e}", inp, "values", repr(e))
     rng = ctx.rng
     fields = list(icf.fields.values())
     chosen = [icf.fields["POS"]] + rng.sample(fields, min(len(fields), 3 if not ctx.thorough else 6))
@@ -206,6 +221,21 @@ def run(ctx):
             sums = []
             for nparts, ccs in ((1, 16), (rng.choice([2, 3, 5, 8]), rng.choice([0.0002, 0.001, 0.01])), (8, 0.00005)):
                 s = check_store(ctx, spec, [path], work, nparts, ccs, f"file {k} parts={nparts} ccs={ccs}")
+                if s is not None:
+                    sums.append(s)
+            # the same records delivered as several files (names that do not encode the genomic order)
+            recs = spec["records"]
+            cuts = [i for i in range(1, len(recs)) if (recs[i - 1]["contig"], recs[i - 1]["pos"] + vcfgen.rlen_of(recs[i - 1])) < (recs[i]["contig"], recs[i]["pos"])]
+            if cuts:
+                chosen_cuts = sorted(rng.sample(cuts, min(len(cuts), rng.choice([1, 2, 3]))))
+                names = rng.sample(["10", "9", "2", "b", "A", "07"], len(chosen_cuts) + 1)
+                paths, a0 = [], 0
+                for nm, c in zip(names, chosen_cuts + [len(recs)]):
+                    paths.append(vcfgen.materialise(spec, pathlib.Path(work) / f"f{k}_piece{nm}", "vcf.gz+tbi", records=recs[a0:c]))
+                    a0 = c
+                rng.shuffle(paths)
+                s = check_store(ctx, spec, paths, work, len(paths), 16, f"file {k} as {len(paths)} files")
+                ctx.count("multi_file_inputs")
                 if s is not None:
                     sums.append(s)
             # partition independence of the summaries (common fields only)
